@@ -54,7 +54,7 @@ def plan_jobs(props, tier, vseed, only_seeds=None, only_ops=None):
     names = seed_names()
     if only_seeds:
         names = [n for n in names if n in only_seeds]
-    elif tier == "quick":
+    elif tier == "quick" and not os.environ.get("VERIF_ALLSEEDS"):
         # a seed-rotated third of F-seed
         k = vseed % 3
         names = [n for i, n in enumerate(names) if i % 3 == k]
@@ -86,7 +86,7 @@ def chain_jobs(results, jobs_by_seed, n_chains, rng, depth_cap=1):
     pool = []
     for res in results:
         for r in res["instances"]:
-            if r["status"] == "accepted" and r.get("enc") and r.get("c01", "equal") == "equal" and not r.get("c04_obl_violation"):
+            if r["status"] == "accepted" and r.get("enc") and r.get("c01", "equal") == "equal" and not r.get("c04_obl_violation") and not r.get("illformed") and not r.get("c04_wf"):
                 if any(e.get("k") in ("?", "cursor?") for e in r["enc"]):
                     continue
                 pool.append((res["seed"], r))
